@@ -147,7 +147,7 @@ class Gir:
                 if p.get('k') == 'p_bind' and 'Stateful<' in (p.get('t') or ''):
                     inputs.add(p['name'])
             c2 = {'inputs': inputs, 'env': dict(ctx['env']), 'fn': ctx['fn']}
-            return self.stmt(e['body'], c2)
+            return T('map', kind='scope', p=self.stmt(e['body'], c2), node=e, l=l)
         return T('top', why=f'`{k}` in parser position', l=l)
 
     def literal(self, e, ctx):
@@ -264,6 +264,38 @@ class Gir:
         e = peel(e)
         return e.get('k') == 'path' and e.get('res') == 'Local' and e.get('path') in ctx['inputs']
 
+    @staticmethod
+    def _early_return_recovery(stmts):
+        """`let res = p.parse_next(input); if !matches!(res, Err(Backtrack(_))) { return res; } input.reset(..); q ...`
+        = ordered choice between p and what follows.  Returns (index of the let, index of the if) or None."""
+        for i, s in enumerate(stmts):
+            if s.get('k') != 'let' or (s.get('pat') or {}).get('k') != 'p_bind' or 'init' not in s:
+                continue
+            if 'core::result::Result<' not in ((s['pat'].get('t') or '') + (s['init'].get('t') or '')):
+                continue
+            if s['init'].get('k') == 'match' and 'TryDesugar' in (s['init'].get('src') or ''):
+                continue
+            name = s['pat']['name']
+            for j in range(i + 1, len(stmts)):
+                sj = stmts[j]
+                while sj.get('k') == 'semi':
+                    sj = sj['e']
+                if sj.get('k') != 'if' or 'else' in sj:
+                    continue
+                then = sj['then']
+                rets = [n for n in walk(then) if n.get('k') == 'ret']
+                if len(rets) != 1 or 'v' not in rets[0]:
+                    continue
+                rv = peel(rets[0]['v'])
+                if not (rv.get('k') == 'path' and rv.get('path') == name):
+                    continue
+                cond_nodes = list(walk(sj['cond']))
+                mentions = any(n.get('k') == 'path' and n.get('path') == name for n in cond_nodes)
+                backtrack = any('Backtrack' in (n.get('path') or '') for n in cond_nodes)
+                if mentions and backtrack:
+                    return i, j
+        return None
+
     def stmt(self, e, ctx):
         """term of an expression evaluated for its effect on the input stream"""
         if e is None:
@@ -272,7 +304,22 @@ class Gir:
         l = e.get('l')
         if k == 'block':
             items = []
-            for s in e.get('stmts', []):
+            stmts = e.get('stmts', [])
+            rec = self._early_return_recovery(stmts)
+            if rec is not None:
+                i, j = rec
+                for s in stmts[:i]:
+                    items.append(self.stmt(s, ctx))
+                first = self.stmt(stmts[i]['init'], ctx)
+                rest = {'k': 'block', 'stmts': stmts[j + 1:], 'l': l}
+                if e.get('expr') is not None:
+                    rest['expr'] = e['expr']
+                items.append(T('alt', items=[first, self.stmt(rest, ctx)], l=l, recovered=True))
+                items = [i for i in items if (i['op'] != 'empty' or i.get('brk')) and not i.get('absorbed')]
+                if not items:
+                    return T('empty')
+                return items[0] if len(items) == 1 else T('seq', items=items, out=None, l=l, stmtform=True)
+            for s in stmts:
                 items.append(self.stmt(s, ctx))
             if e.get('expr') is not None:
                 items.append(self.stmt(e['expr'], ctx))
@@ -393,7 +440,16 @@ class Gir:
                 return T('empty', brk=True, l=l)
             return T('seq', items=[t, T('empty', brk=True, l=l)], out=None, l=l, stmtform=True)
         if k == 'ret':
-            return self.stmt(e['v'], ctx) if 'v' in e else T('empty')
+            t = self.stmt(e['v'], ctx) if 'v' in e else T('empty')
+            v = peel(e.get('v') or {})
+            vp = (peel(v.get('f', {})).get('path') or '') if v.get('k') == 'call' else ''
+            flag = 'ok' if vp.endswith('Result::Ok') else 'err' if vp.endswith('Result::Err') else None
+            if flag is None or (e.get('x') and 'QuestionMark' in (e.get('m') or '')):
+                return t
+            marker = T('empty', brk=True, ret=flag, l=l)     # leaves the enclosing function (see verif/regular.py)
+            if t['op'] == 'empty':
+                return marker
+            return T('seq', items=[t, marker], out=None, l=l, stmtform=True)
         if k == 'closure':
             return T('empty')
         if k in ('binary', 'assign', 'assignop'):
@@ -577,7 +633,7 @@ class Gir:
         if op == 'map':
             if t['kind'] == 'take':
                 return self._consumed_t(t['p'], cm)
-            if t['kind'] in ('cut', 'backtrack', 'trace', 'context', 'by_ref', 'verify', 'complete_err'):
+            if t['kind'] in ('cut', 'backtrack', 'trace', 'context', 'by_ref', 'verify', 'complete_err', 'scope'):
                 return self.output_set(t['p'])
             return ALL
         if op == 'seq' and t.get('out') is not None:
